@@ -14,6 +14,8 @@
 From Coq Require Import ZArith List Lia Bool.
 From LZ4V Require Import Gen.Consts Spec.BlockSpec Model.Mem Model.Fast Model.FastApi
      Proofs.FactorSpec Proofs.FastSound Proofs.FastApiSound Proofs.FastDestSize.
+From LZ4V Require Model.HcMid Proofs.HcMidSound.
+From LZ4V Require Import Model.HcMidApi Proofs.HcMidApiSound.
 Import ListNotations.
 Local Open Scope Z_scope.
 
@@ -85,3 +87,20 @@ Example C06_nonvacuous :
   /\ strict_valid [] [31; 97; 1; 0; 0; 64; 1; 2; 3; 4] = None
   /\ spec_decode [] [31; 97; 1; 0; 0; 64; 1; 2; 3; 4] = Some (repeat 97 20 ++ [1; 2; 3; 4]).
 Proof. vm_compute. repeat split; reflexivity. Qed.
+
+(* HC levels 1-2 (LZ4MID): every block returned by the one-shot entry points, on a context with any history,
+   is STRICTLY valid (end-of-block conditions included) and decodes to the input. *)
+Theorem C06_hc_mid_strict :
+  forall c src srcSize cap,
+    hc_ok c -> src_ok src -> 0 <= srcSize < 2147483648 -> 0 <= cap ->
+    let r := compress_HC_fastReset_mid c src srcSize cap in
+    0 < hr_ret r ->
+    hr_ret r = Z.of_nat (length (hr_out r)) /\
+    strict_valid [] (hr_out r) = Some (load_list src 0 (Z.to_nat srcSize)).
+Proof.
+  intros c src srcSize cap Hc Hs Hz Hcap r Hpos.
+  destruct (compress_HC_fastReset_mid_sound c src srcSize cap Hc Hs Hz Hcap) as ((_ & _ & H) & _).
+  destruct (H Hpos) as (A & _ & _ & _ & B). split; [exact A|]. apply B.
+  destruct (cap <? compressBound srcSize); discriminate.
+Qed.
+Print Assumptions C06_hc_mid_strict.
